@@ -4,6 +4,7 @@ From Coq Require Import List Bool Arith Lia.
 From HV Require Import Ord Sprout Tree TreeLemmas TreeInv TreeRun TreeIds Hist HistFacts.
 From HV Require Import DriverPrim Driver DriverFacts GenDriver GenEquivDriver DriverCode.
 From HV Require Import Ctor GenCtor GenEquivCtor.
+From HV Require Import GenEquivIds.
 Import ListNotations.
 
 (* demes are numbered in creation order; deme 0 is the root.  In every reachable state: at least the root exists; every
@@ -102,3 +103,14 @@ Theorem C07_translated_tree_init n :
   /\ a_level gen_tree_root_args = gen_tree_root_level /\ a_seed gen_tree_root_args = false.
 Proof. exact (tree_init_is_init n). Qed.
 Print Assumptions C07_translated_tree_init.
+
+(* ids: DemeTree._next_child_id, translated from the current tree.py (ids as paths of numbers), computes for the child it is about to
+   create exactly the `did` that C07_ids_unique / C07_id_names_level_and_parent are about; _do_sprout hands init_from_config that id for
+   the parent the child is built for (checked by the driver translator); an id never changes afterwards *)
+Theorem C07_translated_next_child_id c s p ch : WFT c s -> demes s <> [] -> forall ds, demes s = ds ++ [ch] -> d_par ch = Some p ->
+  gen_next_child_id c ds p (did (demes s) p) = Some (did (demes s) (length ds)).
+Proof. exact (next_child_id_is_did c s p ch). Qed.
+Print Assumptions C07_translated_next_child_id.
+Theorem C07_ids_never_change c s ch : WFT c s -> forall q, q < length (demes s) -> did (demes s ++ [ch]) q = did (demes s) q.
+Proof. exact (did_stable c s ch). Qed.
+Print Assumptions C07_ids_never_change.
